@@ -279,6 +279,9 @@ func PointFromSignAndY(sign bool, y *big.Int) (*Point, error) {
 	if noSqrt == nil {
 		return nil, fmt.Errorf("x is not a square mod q")
 	}
+	if sign && p.X.Sign() == 0 {
+		return nil, fmt.Errorf("sign bit set for x = 0")
+	}
 	if (sign && !PointCoordSign(p.X)) || (!sign && PointCoordSign(p.X)) {
 		p.X.Mul(p.X, constants.MinusOne)
 	}
